@@ -45,9 +45,11 @@ def run_property(pid, tier, seed, repo, root, t0):
     # ------------------------------------------------------------------ Verus units
     witness_cache = {}
 
+    wgroup = [u for u in cfg.get("verus", []) if u in witness_run.WITNESS] + list(cfg.get("standin", []))
+
     def witness(u):
         if u not in witness_cache:
-            witness_cache[u] = witness_run.run(u, repo, root)
+            witness_cache[u] = witness_run.run(u, repo, root, group=wgroup)
         return witness_cache[u]
 
     for u in cfg.get("verus", []):
@@ -92,6 +94,19 @@ def run_property(pid, tier, seed, repo, root, t0):
         units.append(r)
         if r["class"] == "undecided":
             undecided.append("kani:%s: %s" % (u, r.get("reason")))
+    # ------------------------------------------------------------------ bounded stand-ins (always run)
+    for name in cfg.get("standin", []):
+        w = witness(name)
+        ob = {"name": "standin:%s" % name[len("standin_"):], "role": "carries", "backend": "bounded check on the real code (cargo test)",
+              "bound": "bounded(%s)" % w.get("bound"), "text": "bounded stand-in for code outside both verifiers' reach: " + str(w.get("bound")),
+              "solver_s": w.get("wall_s"), "witness": w}
+        if w.get("status") == "none":
+            ob["status"] = "discharged"; ob["detail"] = w.get("detail")
+        elif w.get("status") == "found":
+            ob["status"] = "failed"; ob["failing"] = [{"message": "failing input found on the real code", "text": w["detail"], "clause": None}]
+        else:
+            ob["status"] = "undecided"; ob["detail"] = w.get("detail")
+        units.append({"unit": name, "backend": "standin", "obligations": [ob], "checker_cmd": w.get("cmd", ""), "class": "ok"})
     # ------------------------------------------------------------------ verdict
     obligations = [o for r in units for o in r.get("obligations", [])]
     by_name = {o["name"]: o for o in obligations}
@@ -168,7 +183,7 @@ def run_property(pid, tier, seed, repo, root, t0):
                     continue
                 if ok is None:
                     suffix = " no-failing-input-found"
-        elif o["name"].startswith("witness:"):
+        elif o["name"].startswith("witness:") or o["name"].startswith("standin:"):
             rep["witness"] = o.get("witness")
             rep["failing_input"] = o["witness"]["detail"]
             rep["replay_cmd"] = "./check %s --replay %s" % (pid, path)
@@ -293,8 +308,10 @@ def replay(pid, path, repo, root):
             print("VIOLATION property=%s replay=%s" % (pid, path))
             return 1
         return 0 if ok is False else 2
-    if name.startswith("witness:") or (name.startswith("verus:") and rep.get("failing_input")):
+    if name.startswith("witness:") or name.startswith("standin:") or (name.startswith("verus:") and rep.get("failing_input")):
         unit = name.split(":", 1)[1].split("::", 1)[0]
+        if name.startswith("standin:"):
+            unit = "standin_" + unit
         w = witness_run.run(unit, repo, root)
         print("bounded witness search on the real code: %s %s" % (w.get("status"), w.get("detail")))
         if w.get("status") == "found":
